@@ -202,6 +202,9 @@ func (p *Path) Branch(c *sym.Term, fr *frame) bool {
 	}
 	nc := sym.Not(c)
 	p.curWhere = fr.where()
+	if debugDecisions {
+		fmt.Fprintf(os.Stderr, "DECISION branch #%d at %s\n", len(p.decisions), fr.where())
+	}
 	var t, f bool
 	if p.model != nil {
 		if sym.Eval(c, p.model, p.evalMemo) == 1 {
@@ -311,6 +314,9 @@ func (p *Path) Choice(n int) int {
 		v := p.prefix[len(p.decisions)]
 		p.decisions = append(p.decisions, v)
 		return int(v)
+	}
+	if debugDecisions {
+		fmt.Fprintf(os.Stderr, "DECISION choice #%d of %d\n", len(p.decisions), n)
 	}
 	p.ex.addTransitions(n)
 	for i := 1; i < n; i++ {
@@ -787,3 +793,6 @@ func (ex *Explorer) runPath(sol, sol2 *solver.Solver, prefix []int64) (res PathR
 
 // lockState counts the holders of one mutex on this path (w: write lock, r: read locks).
 type lockState struct{ w, r int }
+
+// debugDecisions (GOSE_DEBUG_DECISIONS=1) logs where fresh decisions are taken.
+var debugDecisions = os.Getenv("GOSE_DEBUG_DECISIONS") != ""
